@@ -2,16 +2,12 @@ import Driver.Util
 import Driver.PyJson
 import Driver.C05
 import Torf.Model.ReadStream
+import Torf.Spec.Span
 open Lean Torf Torf.Bencode Torf.Codec Torf.ReadStream
 namespace Driver.C06
 open Driver.C05
 
-/-- offset and length of the value of key `k` in `ser (.dict kvs)` for canonical `kvs` -/
-def valueSpan (k : Bytes) : List (Bytes × BVal) → Nat → Option (Nat × Nat)
-  | [], _ => none
-  | (k', v) :: t, off =>
-    if k' = k then some (off + (serBytes k').length, (ser v).length)
-    else valueSpan k t (off + (serBytes k').length + (ser v).length)
+-- `valueSpan` / `spanOf` are the specification in `Torf/Spec/Span.lean` (theorem `C06_span`)
 
 /-- op `c06.export` : {m : metainfo as PyVal dict, vok} ↦ dump(), the bytes fed to SHA-1,
     canonical-form verdict of the strict parser, span of the `info` value in the dump -/
